@@ -66,7 +66,7 @@ def bounds(h):
 
 class C37(SimSpec):
     prop_id = "C37"
-    model_vo = ["theories/Sim/Exh.vo"]
+    model_vo = ["theories/Sim/Exh.vo", "theories/Sim/E2E.vo"]
     props_vo = "theories/Props/C37.vo"
     imports = ("From Coq Require Import List NArith.\nFrom HV Require Import Sim.Model Sim.Run Sim.Exh.\n"
                "Import ListNotations.")
